@@ -257,3 +257,15 @@ pub fn raw_tablet_from_payload(
         Err(TabletParsingError::WrongTokenRange(_, _)) => Err("wrongrange"),
     })
 }
+
+/// C12: a `RawTablet` from plain data (as `from_custom_payload` would produce it:
+/// `first` is the first token *belonging* to the tablet).
+pub(crate) fn make_raw_tablet(first: i64, last: i64, replicas: &[(Uuid, Shard)]) -> RawTablet {
+    RawTablet {
+        first_token: Token::new(first),
+        last_token: Token::new(last),
+        replicas: RawTabletReplicas {
+            replicas: replicas.to_vec(),
+        },
+    }
+}
